@@ -395,6 +395,12 @@ func (env *SpecEnv) isNilTerm(v Val) *Term {
 	case *FuncV:
 		return p.Nil
 	}
+	if _, isTerm := v.(*Term); isTerm {
+		// a field read through a definitely-nil pointer compared with a scalar:
+		// only meaningful under a guard that is false on this path
+		env.x.E.nextObj++
+		return Var(fmt.Sprintf("undef%d", env.x.E.nextObj), SBool)
+	}
 	env.errf("nil comparison of %T", v)
 	return TFalse
 }
@@ -819,6 +825,18 @@ func (env *SpecEnv) callExpr(n *ast.CallExpr) Val {
 			}
 		}
 		return Int(0)
+	case "funcIs":
+		// funcIs(f, "name"): the function value is (a bound method of) the named function
+		fv, ok := env.eval(arg(0)).(*FuncV)
+		lit, _ := arg(1).(*ast.BasicLit)
+		if !ok || lit == nil {
+			return TFalse
+		}
+		want, _ := strconv.Unquote(lit.Value)
+		if fn, ok := fv.Fn.(*ssa.Function); ok {
+			return Bool(strings.Contains(fn.String(), want))
+		}
+		return TFalse
 	case "allNonNil":
 		// every value stored in the map is a non-nil reference
 		mv, ok := env.eval(arg(0)).(*MapV)
@@ -1084,6 +1102,11 @@ func (env *SpecEnv) assumeEnsures(e ast.Expr, ret Val, sig *types.Signature) Val
 			} else {
 				env.errf("carries: %s is not a channel (%T)", exprString(n.Args[0]), av)
 			}
+			return ret
+		}
+		if id, ok := n.Fun.(*ast.Ident); ok && id.Name == "funcIs" {
+			// identity of a function value cannot be bound at a call site
+			env.x.E.note("ensures funcIs(...) is checked in the callee but not usable by callers")
 			return ret
 		}
 		if id, ok := n.Fun.(*ast.Ident); ok && id.Name == "implies" && len(n.Args) == 2 {
